@@ -85,7 +85,7 @@ def oracle_C03(meta, kw, res):
                     break
         if fired:
             out.append(("interrupt-status", "terminal event reached its count but status is Success"))
-    if st not in ("Success", "UserInterrupt") and te is None and t and len(t) > 1 and t[-1] == xend:
+    if st not in ("Success", "UserInterrupt") and te is None and t and len(t) > 1 and abs(t[-1] - xend) <= 4 * 2.0 ** -52 * max(abs(xend), abs(x0)):
         out.append(("covered-but-not-success", "the last sample is xend but the status is %s" % st))
     if st == "UserInterrupt" and not fired:
         out.append(("interrupt-status", "status UserInterrupt but no terminal event reached its count"))
